@@ -121,7 +121,14 @@ def handle (args : List String) (impl : String) : R Ans :=
     let ns ← parseNodes nodes
     let g : G (List Nat) := ⟨K, ns, st⟩
     let restKv : Option (List (String × String)) := if rest == "none" then none else
-      some ((rest.splitOn ",").filterMap fun kv => match kv.splitOn "=" with | [a, b] => some (a, b) | _ => none)
+      some ((rest.splitOn ",").filterMap fun kv => match kv.splitOn "=" with
+        | [a, b] =>
+          -- the key is hex-encoded ASCII
+          let cs := a.toList
+          let hexVal := fun (c : Char) => if '0' ≤ c ∧ c ≤ '9' then c.toNat - '0'.toNat else if 'a' ≤ c ∧ c ≤ 'f' then c.toNat - 'a'.toNat + 10 else 0
+          let bytes := (List.range (cs.length / 2)).map fun i => (hexVal (cs.getD (2 * i) '0')) * 16 + hexVal (cs.getD (2 * i + 1) '0')
+          some (String.ofList (bytes.map Char.ofNat), b)
+        | _ => none)
     let gfa := writeGfa g
     let json := toJsonRestImp g (fun d => toString (d.headD 0)) restKv
     let model := match gfa, json with
